@@ -158,6 +158,16 @@ package main
 //@     assert[C01:deliver-parsed-response] arg1 == parsed && arg1 == resp
 //@     assert[C01:one-delivery-per-upload] sends == 0
 //@     do sends = sends + 1
+// the uploaded body reaches the waiting client through the pipe of the response delivered above and through nothing
+// that another upload can touch: one copy, from the parsed body into that pipe, with no scratch memory that outlives it
+//@   ghost copies int = 0
+//@   call io.Copy
+//@     assert[C01:uploaded-body-goes-into-the-delivered-responses-own-pipe] copies == 0 && sends == 1 && arg0 == box(pw) && arg1 == respBody
+//@     do copies = copies + 1
+//@   call io.CopyBuffer
+//@     assert[C01:relay-scratch-memory-is-private-to-this-upload] copies == 0 && sends == 1 && arg0 == box(pw) && arg1 == respBody && fresh(arg2)
+//@     do copies = copies + 1
+//@   ensures[C01:delivered-upload-is-relayed-once] sends == 1 ==> copies == 1
 
 //@ func (*proxy).handleAgentGetRequest props(C01,C02,C07)
 //@   local p recv 0 0
